@@ -203,6 +203,6 @@ def subs(tier: str):
     q = tier == "quick"
     return [
         Sub("exhaustive-012", check, "exhaustive", cases=_exhaustive, exhaustive_flag=True),
-        Sub("random", check, "hypothesis", strategy=lambda: _random(7 if q else 12, 4 if q else 8), examples=25 if q else 400),
-        Sub("member-edit-histories", check_history, "hypothesis", strategy=lambda: _histories(5 if q else 8, 3 if q else 5), examples=40 if q else 600),
+        Sub("random", check, "hypothesis", strategy=lambda: _random(7 if q else 12, 4 if q else 8), examples=30 if q else 2000),
+        Sub("member-edit-histories", check_history, "hypothesis", strategy=lambda: _histories(5 if q else 8, 3 if q else 5), examples=40 if q else 3000),
     ]
